@@ -212,6 +212,16 @@ OBLIGATIONS['C07'] = [
     ('key::lemma_key_roundtrip', 'lemma'), ('key::lemma_enc_labels', 'lemma'), ('key::lemma_params_of_enc', 'lemma'),
     ('vstubs::check_*', 'body'),
 ]
+OBLIGATIONS['C08'] = [
+    ('header::Header::from_cbor_value_nested', 'body'), ('header::Header::from_cbor_value', 'body'),
+    ('header::lemma_hdr_inv_init', 'lemma'), ('header::lemma_hdr_inv_step', 'lemma'), ('header::lemma_hdr_final', 'lemma'), ('header::lemma_iv_both', 'lemma'), ('header::lemma_absent_fields', 'lemma'),
+    ('sign::CoseSignature::from_cbor_value_nested', 'body'), ('header::ProtectedHeader::from_cbor_bstr_nested', 'body'), ('header::ProtectedHeader::from_cbor_bstr', 'body'),
+    ('header::ProtectedHeader::from_cbor_value', 'body'),
+    ('common::Label::from_cbor_value', 'body'), ('common::RegisteredLabel::from_cbor_value', 'body'), ('common::RegisteredLabelWithPrivate::from_cbor_value', 'body'),
+    ('common::lemma_label_obeys_cmp', 'lemma'),
+    ('value::Value::try_as_map', 'body'), ('value::Value::try_as_array', 'body'), ('value::Value::try_as_nonempty_bytes', 'body'), ('value::Value::try_as_bytes', 'body'),
+    ('vprelude::lemma_map_elem_decreases', 'lemma'), ('vprelude::lemma_arr_elem_decreases', 'lemma'),
+]
 # bounded stand-ins run on the real crate (never counted as discharged): property -> replay subcommands
 MEASUREMENTS = {'C01': ['c01-measure']}
 
